@@ -5,7 +5,7 @@
 (* combined read_/write_<struct> methods) does not influence what the         *)
 (* property demands; it only tells the harness which module class to build.   *)
 EXTENDS LinkedStruct, Json, Sequences
-CONSTANTS Depth,
+CONSTANTS Depth, Depth2,  \* depth for the clipping / the refusing hardware
           Layouts,      \* subset of {"combined", "separate"}
           WM, WV,       \* members / values used by WriteMember
           AM, AV,       \* members / values used by AssignMember
@@ -19,12 +19,13 @@ Idx(m) == CASE m = "p" -> 0 [] m = "q" -> 1 [] m = "r" -> 2
 Pat(v) == [m \in Members |-> ((v + Idx(m)) % 4) + 1]
 ASSUME \A v \in SWV \cup SAV : Pat(v) \in [Members -> Vals]
 
-Obs == [hw |-> hw', mem |-> mem', str |-> str']
+Obs == [hw |-> hw', mem |-> mem', str |-> str', ok |-> ok']
 Rec(a) == hist' = Append(hist, a @@ [exp |-> Obs])
 
 GInit == /\ SInit
          /\ layout \in Layouts
-         /\ hist = <<[act |-> "init", layout |-> layout, hwmax |-> HwMax, exp |-> [hw |-> hw, mem |-> mem, str |-> str]]>>
+         /\ hist = <<[act |-> "init", layout |-> layout, hwmax |-> HwMax, hwmode |-> hwmode,
+                      exp |-> [hw |-> hw, mem |-> mem, str |-> str, ok |-> ok]]>>
 GNext == /\ UNCHANGED layout
          /\ \/ \E v \in SWV : WriteStruct(Pat(v)) /\ Rec([act |-> "ws", v |-> Pat(v)])
             \/ \E v \in SAV : AssignStruct(Pat(v)) /\ Rec([act |-> "as", v |-> Pat(v)])
@@ -34,6 +35,7 @@ GNext == /\ UNCHANGED layout
             \/ \E m \in RM : ReadMember(m) /\ Rec([act |-> "rm", m |-> m])
 GSpec == GInit /\ [][GNext]_<<svars, hist, layout>>
 
-Bound == TLCGet("level") <= Depth
-Emit1 == (TLCGet("level") = Depth + 1) => PrintT(<<"BEH", ToJson(hist)>>)
+D == IF hwmode = "clip" THEN Depth ELSE Depth2
+Bound == TLCGet("level") <= D
+Emit1 == (TLCGet("level") = D + 1) => PrintT(<<"BEH", ToJson(hist)>>)
 =============================================================================
